@@ -369,5 +369,11 @@ func c05TreeCorpus() []any {
 				func(t *c05Tree) { t.Lint, t.Client = lint, client }))
 		}
 	}
+	// required on "" and on a missing value outside lint mode: an error each
+	for _, pth := range [][]string{{"Values", "empty"}, {"Values", "missing"}} {
+		root := &c05TChart{Name: "p", Version: "0.1.0", Templates: []c05TTemplate{
+			tf("templates/a.yaml", c05Text("["), c05Node{K: "required", S: "need it", Path: pth}, c05Text("]"))}}
+		out = append(out, c05TreeCase("required-"+pth[1], root, map[string]any{"str": "s", "empty": ""}, nil))
+	}
 	return out
 }
